@@ -19,7 +19,8 @@ TraceAlg ==
        /\ Logged(e.mul) = Entries(MMul(A, B))
        /\ Logged(e.add) = Entries(MAdd(A, B))
        /\ Logged(e.sub) = Entries(MSub(A, B))
-       /\ Logged(e.scale) = Entries(MScale(al, A))
+       /\ Logged(e.scale) = Entries(MScale(al, A))          \* A * alpha; the scalar may be alpha * 2^-k (field alpha_log2), the entries are then logged times 2^k
+       /\ ("scale_l" \in DOMAIN e) => Logged(e.scale_l) = Entries(MScale(al, A)) /\ Logged(e.scale_c) = Entries(MScale(al, A))     \* alpha * A, A *= alpha
        /\ Logged(e.neg) = Entries(MScale(<<-1, 0>>, A))
        /\ Logged(e.comm) = Entries(MComm(A, B))
        /\ Logged(e.anti) = Entries(MAnti(A, B))
